@@ -1,7 +1,8 @@
 (* C14 - Footnotes: every reference gets one note and no content vanishes.
    Statements only; proofs in Proofs/PostDisplaced.v.  Model: Model/Post.v. *)
 Require Import BB.Base.Str BB.Base.Xml BB.Model.Types BB.Model.Post.
-Require Import BB.Proofs.PostDisplaced.
+Require Import Permutation.
+Require Import BB.Proofs.PostDisplaced BB.Proofs.PostConserve.
 
 (* for every XML tree (not only parser output): if footnote resolution returns, no internal
    placeholder element is left anywhere in the result *)
@@ -9,6 +10,21 @@ Theorem C14_no_displaced_element_survives : forall x y,
   resolve_displaced_content x = OkR y -> forall g, no_displaced_x g y = true.
 Proof. exact no_displaced_survives. Qed.
 Print Assumptions C14_no_displaced_element_survives.
+
+(* No content vanishes.  The signature of an element is (tag, attributes without the internal displaced attribute,
+   its direct text).  For every tree of the shape the XML builder produces (wfDx: a <displaced> block holds elements
+   only, carries no displaced attribute and is not followed by a text node): the elements of the result are, as a
+   multiset, the elements of the input - every unused block retagged as the paragraph "<NAME> <marker>" that
+   stays in the document as ordinary content - minus the blocks that were used (their children are all kept: they
+   are now inside the note), plus one "(content missing)" paragraph per reference without a block.  So every
+   element that is not an internal block is in the output exactly once, with its attributes and its text. *)
+Theorem C14_no_content_vanishes : forall x y,
+  wfDx x = true -> resolve_displaced_content x = OkR y ->
+  exists used phs,
+    Permutation (xsigs y ++ map retag_sig used) (map retag_sig (xsigs x) ++ phs)
+    /\ Forall (fun s => fst (fst s) = DISPLACED) used /\ Forall (fun s => s = ph_sig) phs.
+Proof. exact displaced_conserves. Qed.
+Print Assumptions C14_no_content_vanishes.
 
 (* non-vacuity: a reference with a matching block, a reference without one, and a surplus block *)
 Definition ex14 : xml :=
@@ -23,4 +39,7 @@ Example C14_example :
     [El (of_string "p") [] [Tx (of_string "a"); El (of_string "authorialNote") [(of_string "marker", of_string "1")] [El (of_string "p") [] [Tx (of_string "note one")]]];
      El (of_string "p") [] [El (of_string "authorialNote") [(of_string "marker", of_string "9")] [El (of_string "p") [] [Tx (of_string "(content missing)")]]];
      El (of_string "p") [] [Tx (of_string "FOOTNOTE 2")]; El (of_string "p") [] [Tx (of_string "unused")]]).
+Proof. vm_compute. reflexivity. Qed.
+
+Example C14_example_is_well_formed : wfDx ex14 = true.
 Proof. vm_compute. reflexivity. Qed.
